@@ -137,6 +137,14 @@ func stressTypes() []ctype {
 			{"Get", func(i any, r *SplitMix) { it, _ := i.(*bstree.BsTree[int, int]).Get(r.Intn(5)); use(it.Val) }},
 			{"Upsert", func(i any, r *SplitMix) { i.(*bstree.BsTree[int, int]).Upsert(r.Intn(5), r.Intn(9)) }},
 			{"Delete", func(i any, r *SplitMix) { i.(*bstree.BsTree[int, int]).Delete(r.Intn(5)) }},
+			// a callback that reads the tree it is traversing (a nested read lock behind a waiting writer deadlocks)
+			{"TraverseGet", func(i any, r *SplitMix) {
+				t := i.(*bstree.BsTree[int, int])
+				t.Traverse(func(it bstree.Item[int, int]) {
+					v, _ := t.Get(it.Key)
+					use(v.Val + t.Size())
+				})
+			}},
 			{"Traverse", func(i any, r *SplitMix) {
 				i.(*bstree.BsTree[int, int]).Traverse(func(it bstree.Item[int, int]) { use(it.Val) })
 			}},
@@ -154,7 +162,10 @@ func stressTypes() []ctype {
 	trieT := ctype{
 		name: "trie.Trie",
 		mk: func(k int) any {
-			t := trie.New[string, int](queue.New[string]())
+			// the result queue is an object WITHOUT a lock of its own: the trie documents `q` as guarded by its own
+			// mutex, so every access to it has to happen under that mutex (with queue.Queue, which locks itself, the
+			// race detector cannot see a writer of `q` that only holds the read lock)
+			t := trie.New[string, int](&rawQueue{})
 			for i := 0; i < k; i++ {
 				t.Put(keys[i%len(keys)], i)
 			}
@@ -166,14 +177,10 @@ func stressTypes() []ctype {
 			{"Put", func(i any, r *SplitMix) { i.(*trie.Trie[string, int]).Put(keys[r.Intn(5)], r.Intn(9)) }},
 			{"Get", func(i any, r *SplitMix) { v, _ := i.(*trie.Trie[string, int]).Get(keys[r.Intn(5)]); use(v) }},
 			{"LongestPrefix", func(i any, r *SplitMix) { i.(*trie.Trie[string, int]).LongestPrefix("abcd") }},
-			{"StartsWith", func(i any, r *SplitMix) {
-				q, _ := i.(*trie.Trie[string, int]).StartsWith("a")
-				use(q.Size())
-			}},
-			{"Keys", func(i any, r *SplitMix) {
-				q, _ := i.(*trie.Trie[string, int]).Keys()
-				use(q.Size())
-			}},
+			// the queue handed back is the trie's one shared result queue (by design of the API): the callers here do
+			// not look into it while other calls may be refilling it
+			{"StartsWith", func(i any, r *SplitMix) { i.(*trie.Trie[string, int]).StartsWith("a") }},
+			{"Keys", func(i any, r *SplitMix) { i.(*trie.Trie[string, int]).Keys() }},
 		},
 		sanity: func(i any) {
 			t := i.(*trie.Trie[string, int])
@@ -372,6 +379,26 @@ func heapRefill(h *heap.Heap[int], n int) {
 		h.Push(vals...)
 	}
 }
+
+// rawQueue is a trie.Queuer without any synchronisation (a ring of fixed size, so that a race cannot crash the run).
+type rawQueue struct {
+	items [256]string
+	head  int
+	n     int
+}
+
+func (q *rawQueue) Enqueue(k string) { q.items[(q.head+q.n)%len(q.items)] = k; q.n++ }
+func (q *rawQueue) Dequeue() (string, error) {
+	if q.n <= 0 {
+		return "", fmt.Errorf("empty")
+	}
+	k := q.items[q.head%len(q.items)]
+	q.head++
+	q.n--
+	return k, nil
+}
+func (q *rawQueue) Size() int { return q.n }
+func (q *rawQueue) Clear()    { q.head, q.n = 0, 0 }
 
 func runScenario(t ctype, ms []method, initial int, calls int, r *SplitMix) string {
 	inst := t.mk(initial)
